@@ -29,8 +29,11 @@ THEOREMS = [
     "Qentem.Props.C09.malformed_empty_exponent_real",
     "Qentem.Props.C09.strToNum_no_fault",
     "Qentem.Props.C09.strToNum_offset_bounds",
+    "Qentem.Props.C09.bigint_steps_exact",
+    "Qentem.Props.C09.overflow_reported_partial",
 ]
-OPEN = []
+OPEN = ["Qentem.Props.C09.real_within_one_ulp (stated; searched by the exact-Rat oracle on the C++ results)",
+        "Qentem.Props.C09.overflow_reported (stated; searched by the oracle; the repaired exponent test is proved in overflow_reported_partial)"]
 
 D0, D9, DOT, LE, UE, PLUS, MINUS = 48, 57, 46, 101, 69, 43, 45
 
